@@ -396,6 +396,10 @@ pub struct SessCase {
     /// fragment kind, see `fragment_of`
     pub kind: u8,
     pub seq: u8,
+    /// 0 = the fragment travels in one transport segment; 1 = in two segments from its sender; 2 = in two segments of
+    /// which the FIRST comes from the other master address (foreign <-> configured); 3 = the SECOND does
+    #[serde(default)]
+    pub split: u8,
 }
 
 fn fragment_of(kind: u8, seq: u8, outstanding: Option<(u8, bool)>) -> (Vec<u8>, &'static str) {
@@ -482,15 +486,17 @@ impl Prop for Sess {
             0u8..6,
             0u8..14,
             0u8..16,
+            prop_oneof![4 => Just(0u8), 1 => Just(1u8), 2 => Just(2u8), 2 => Just(3u8)],
         )
             .prop_map(
-                |(state, any_master, broadcast_enabled, origin, kind, seq)| SessCase {
+                |(state, any_master, broadcast_enabled, origin, kind, seq, split)| SessCase {
                     state,
                     any_master,
                     broadcast_enabled,
                     origin,
                     kind,
                     seq,
+                    split,
                 },
             )
             .boxed()
@@ -595,7 +601,32 @@ async fn run_sess(case: &SessCase) -> CaseOut {
         out.nontrivial = true;
         out.label("invalid_fragment_from_foreign_or_broadcast");
     }
-    let bytes = rig.frame_fragment(src, dst, &frag);
+    let split = if frag.len() >= 2 { case.split % 4 } else { 0 };
+    let other = if foreign { MASTER_ADDR } else { 55u16 };
+    let mixed = split >= 2;
+    let bytes = if split == 0 {
+        rig.frame_fragment(src, dst, &frag)
+    } else {
+        // two transport segments (FIR, then FIN, consecutive sequence numbers), each in its own link frame
+        let cut = 1 + (case.seq as usize % (frag.len() - 1));
+        let (s1, s2) = match split {
+            1 => (src, src),
+            2 => (other, src),
+            _ => (src, other),
+        };
+        let t = case.seq & 0x3F;
+        let mut p1 = vec![0x40 | t];
+        p1.extend_from_slice(&frag[..cut]);
+        let mut p2 = vec![0x80 | ((t + 1) & 0x3F)];
+        p2.extend_from_slice(&frag[cut..]);
+        let mut b = rl::encode(0xC4, dst, s1, &p1);
+        b.extend(rl::encode(0xC4, dst, s2, &p2));
+        out.label(if mixed { "segments_from_two_masters" } else { "two_segments" });
+        if mixed {
+            out.nontrivial = true;
+        }
+        b
+    };
     rig.send_raw(&bytes);
     rig.settle().await;
     let tx = rig.take_tx();
@@ -647,6 +678,18 @@ async fn run_sess(case: &SessCase) -> CaseOut {
                 ),
             ));
         }
+    } else if mixed && !case.any_master {
+        // one of the two segments comes from an address that is not the configured master: whatever is made of them
+        // is not a fragment from the configured master
+        if !app_frags.is_empty() || !executed.is_empty() {
+            out.fail(
+                Fail::new(
+                    "mixed-source-fragment-accepted",
+                    format!("{what} in two transport segments, the {} from master address {} and the other from {} (configured {MASTER_ADDR}, any-master off), in state {}: answered {:02x?}, executed {:?}", if split == 2 { "first" } else { "second" }, other, src, case.state, app_frags, executed),
+                )
+                .with_sig("C07 mixed-source-fragment-accepted"),
+            );
+        }
     } else if foreign && !case.any_master {
         if !app_frags.is_empty() {
             out.fail(
@@ -671,6 +714,7 @@ async fn run_sess(case: &SessCase) -> CaseOut {
             }
         }
         if valid
+            && !mixed
             && case.state == 0
             && !matches!(case.kind % 14, 3 | 12 | 13)
             && !app_frags
